@@ -1,10 +1,113 @@
-/- Line-protocol driver for C09 (stub until the property's models exist). -/
+/-
+  Line-protocol driver for C09 (message bridging).
+
+  Model (mirrors pyipmi/interfaces/ipmb.py + the bridging branch of Rmcp._send_and_receive):
+    snd <rqSa> <rsSa> <channel> <seq> <tracking> <hex payload>        -> ok <hex> | <error tag>
+    brg <routing> <7 hdr fields> <seq> <hex payload>                  -> ok <hex> | <error tag>
+    dec <hex frame>                                                   -> ok <hex> | <error tag>
+    rcv <7 hdr fields> <flags> <hex;hex;…>                            -> none | ok <hex> | <error tag>
+  Spec (PyIpmi.Spec.Bridges / Spec.Wire, the oracle):
+    peel <n> <hex frame>             -> some <hop;hop;…|-> <hex inner> | none     hop = bridge:src:channel:tracking:seq
+    parse <hex frame>                -> some <7 fields> <hex data> | none
+    mkreply <7 fields> <hex body>    -> <hex frame>
+    wrap <hex innermost> <layer>*    -> <hex frame>      layer = rsSa,rsLun,netfn,rqSa,rqLun,seq,cmd,cc (outermost first)
+    isreply <7 fields> <flags> <hex> -> 0 | 1
+
+  routing = rq:rs:ch,rq:rs:ch,… (or - for the empty list); hdr fields = rsSa rsLun netfn rqSa rqLun seq cmd;
+  flags = rq_sa rs_sa rq_lun rs_lun rq_seq as 0/1.
+-/
 import PyIpmi.Base.Proto
-open PyIpmi.Proto
+import PyIpmi.Model.Bridge
+import PyIpmi.Spec.Bridges
+open PyIpmi PyIpmi.Proto PyIpmi.Ipmb PyIpmi.Bridge PyIpmi.Spec.Wire PyIpmi.Spec.Bridges
+
+def parseHdr9 (ts : List String) : Option Hdr :=
+  match ts.mapM String.toNat? with
+  | some [a, b, c, d, e, f, g] =>
+    some { rsSa := a, rsLun := b, netfn := c, rqSa := d, rqLun := e, seq := f, cmd := g }
+  | _ => none
+
+def parseFlags9 (s : String) : Option Flags :=
+  match s.toList with
+  | [a, b, c, d, e] =>
+    if [a, b, c, d, e].all (fun x => x == '0' || x == '1') then
+      some { rqSa := a == '1', rsSa := b == '1', rqLun := c == '1', rsLun := d == '1', rqSeq := e == '1' }
+    else none
+  | _ => none
+
+def parseRouting (s : String) : Option (List Route) :=
+  if s == "-" then some []
+  else (s.splitOn ",").mapM fun t =>
+    match (t.splitOn ":").mapM String.toNat? with
+    | some [a, b, c] => some ⟨a, b, c⟩
+    | _ => none
+
+def parseLayer (s : String) : Option (Hdr × Nat) :=
+  match (s.splitOn ",").mapM String.toNat? with
+  | some [a, b, c, d, e, f, g, cc] =>
+    some ({ rsSa := a, rsLun := b, netfn := c, rqSa := d, rqLun := e, seq := f, cmd := g }, cc)
+  | _ => none
+
+def parseFrames (s : String) : Option (List (List Nat)) :=
+  if s == "-" then some [] else (s.splitOn ";").mapM ofHex
+
+def showBytes9 : Outcome (List Nat) → String
+  | .ok bs => "ok " ++ toHex bs
+  | e => e.tag
+
+def showHop (h : Hop) : String := s!"{h.bridge}:{h.src}:{h.channel}:{h.tracking}:{h.seq}"
 
 def handleC09 (line : String) : String :=
   match tokens line with
   | ["ping"] => "pong"
+  | ["snd", a, b, c, d, e, hx] =>
+    match [a, b, c, d, e].mapM String.toNat?, ofHex hx with
+    | some [rq, rs, ch, seq, tr], some p => showBytes9 (encodeSendMessage p rq rs ch seq tr)
+    | _, _ => "bad-op"
+  | ["brg", r, a, b, c, d, e, f, g, seq, hx] =>
+    match parseRouting r, parseHdr9 [a, b, c, d, e, f, g], seq.toNat?, ofHex hx with
+    | some rt, some h, some sq, some p => showBytes9 (encodeBridged rt h p sq)
+    | _, _, _, _ => "bad-op"
+  | ["dec", hx] =>
+    match ofHex hx with
+    | some fr => showBytes9 (decodeBridged fr)
+    | none => "bad-op"
+  | ["rcv", a, b, c, d, e, f, g, fl, frs] =>
+    match parseHdr9 [a, b, c, d, e, f, g], parseFlags9 fl, parseFrames frs with
+    | some h, some fl, some frames =>
+      match recvBridged h fl frames with
+      | none => "none"
+      | some o => showBytes9 o
+    | _, _, _ => "bad-op"
+  | ["peel", n, hx] =>
+    match n.toNat?, ofHex hx with
+    | some n, some fr =>
+      match peelN n fr with
+      | some (hops, inner) =>
+        let hs := if hops.isEmpty then "-" else ";".intercalate (hops.map showHop)
+        s!"some {hs} {toHex inner}"
+      | none => "none"
+    | _, _ => "bad-op"
+  | ["parse", hx] =>
+    match ofHex hx with
+    | some fr =>
+      match parseReq fr with
+      | some (h, data) =>
+        s!"some {h.rsSa} {h.rsLun} {h.netfn} {h.rqSa} {h.rqLun} {h.seq} {h.cmd} {toHex data}"
+      | none => "none"
+    | none => "bad-op"
+  | ["mkreply", a, b, c, d, e, f, g, hx] =>
+    match parseHdr9 [a, b, c, d, e, f, g], ofHex hx with
+    | some h, some body => toHex (mkReply h body)
+    | _, _ => "bad-op"
+  | "wrap" :: hx :: layers =>
+    match ofHex hx, layers.mapM parseLayer with
+    | some r, some ls => toHex (ls.foldr (fun (p : Hdr × Nat) acc => wrapLayer p.1 p.2 acc) r)
+    | _, _ => "bad-op"
+  | ["isreply", a, b, c, d, e, f, g, fl, hx] =>
+    match parseHdr9 [a, b, c, d, e, f, g], parseFlags9 fl, ofHex hx with
+    | some h, some fl, some fr => if decide (isReplyTo h fr fl) then "1" else "0"
+    | _, _, _ => "bad-op"
   | _ => "bad-op"
 
 def main : IO Unit := do
